@@ -432,7 +432,7 @@ class RunLoop(Unit):
         install_exc_info(I)
         keys = loop_keys(raw(NetworkingThread, '_run'), N_, kind=ast.While)
         if len(keys) != 3:
-            raise RuntimeError('_run no longer has three while loops')
+            raise Unsupported('contract does not fit the code any more: _run no longer has three while loops')
         unit = self
         k_outer, k_write, k_read = keys
 
@@ -465,11 +465,15 @@ class RunLoop(Unit):
             unit.G['reads'] = r
             unit.G['reacts'] = r
             fr.locals['num_packets'] = E.new_int('num@head', 0, None)
-            fr.locals['read_timeout'] = 0
+            if E.fork(2, 'after-first-read'):
+                fr.locals['read_timeout'] = 0            # otherwise: the value computed before the loop
+                if E.fork(2, 'transport-swapped@read-head'):
+                    unit.swap_transport()                # an earlier reaction of this batch replaced reactor and file object
             unit.thread.__dict__['interrupt'] = bool(E.fork(2, 'interrupted@read-head'))
             if unit.G['pending'] is not None and E.fork(2, 'pending-cleared'):
                 fr.locals['exc_info'] = None
                 unit.G['pending-cleared'] = True
+        r_havoc.keeps = ('read_timeout', 'exc_info')     # both are havocked by case split above (kept / reset)
         I.loop_specs[k_read] = LoopSpec('read-batch', r_inv, r_havoc, lambda I_, fr: 50 - fr.locals['num_packets'])
 
     def havoc_outer(self, I):
@@ -500,8 +504,21 @@ class RunLoop(Unit):
                 raise ioerr
             return True
 
-        def read_packet(stream, timeout=0):
+        def swap_transport():
+            # what LoginReactor.react does on an encryption request / login success: new file object, new reactor
+            unit.generation = getattr(unit, 'generation', 0) + 1
+            conn.file_object = 'FILE#%d' % unit.generation
+            conn.reactor = mk_reactor(unit.generation)
+        unit.swap_transport = swap_transport
+
+        def mk_reactor(tag):
+            return types.SimpleNamespace(tag=tag, read_packet=lambda stream, timeout=0: read_packet(stream, timeout, tag))
+
+        def read_packet(stream, timeout=0, tag=0):
             G = unit.G
+            E.check('read.current-transport', stream is conn.file_object and tag == conn.reactor.tag,
+                    note='every read goes through the connection\'s CURRENT reactor and file object (a reaction may have '
+                         'replaced them: encryption swap, login success)')
             E.check('read.after-react', G['reads'] == G['reacts'],
                     note='the previous packet has been reacted to before the next read')
             E.check('read.outside-lock', lock.depth == 0, note='reading happens without the write lock')
@@ -519,11 +536,14 @@ class RunLoop(Unit):
             G['reacts'] = G['reacts'] + 1
             if packet.packet_name == 'disconnect':
                 unit.thread.__dict__['interrupt'] = True       # PlayingReactor.react -> Connection.disconnect()
+            elif E.fork(2, 'reaction-swaps-transport'):
+                swap_transport()
         conn._write_lock = lock
         conn._pop_packet = _pop_packet
         conn._outgoing_packet_queue = self.queue
-        conn.reactor = types.SimpleNamespace(read_packet=read_packet)
-        conn.file_object = 'FILE'
+        unit.generation = 0
+        conn.reactor = mk_reactor(0)
+        conn.file_object = 'FILE#0'
         conn._react = _react
         t = object.__new__(NetworkingThread)
         t.__dict__.update(connection=conn, interrupt=False)
@@ -569,20 +589,32 @@ def replay_run():
         written.append(q.popleft())
         return True
 
+    stale = []
+
     def read_packet(stream, timeout=0):
+        if stream is not conn.file_object:
+            stale.append(len(reacted))
         if not incoming:
             if not q:
                 t.interrupt = True
             return None
         return types.SimpleNamespace(packet_name='other', v=incoming.popleft())
+
+    def _react(p):
+        reacted.append(p.v)
+        if len(reacted) in (3, 77):                 # as the login reactor does after an encryption request
+            conn.file_object = object()
+            conn.reactor = types.SimpleNamespace(read_packet=read_packet)
     conn._pop_packet = _pop_packet
     conn._outgoing_packet_queue = q
     conn.reactor = types.SimpleNamespace(read_packet=read_packet)
-    conn.file_object = None
-    conn._react = lambda p: reacted.append(p.v)
+    conn.file_object = object()
+    conn._react = _react
     k, v = native_call(t._run, timeout=10)
     bad = None
-    if k != 'ok':
+    if stale:
+        bad = 'after a reaction replaced connection.file_object (packet %d), the next read still used the old file object' % stale[0]
+    elif k != 'ok':
         bad = '%s %r' % (k, v)
     elif written != list(range(700)):
         bad = 'written order broken (first difference at %d)' % next(i for i, (a, b) in enumerate(zip(written, range(700))) if a != b)
@@ -614,4 +646,9 @@ class HandleExit(Unit):
 
 
 def units(tier):
-    return [PlaySteps(), KeepAliveWire(), PopPacket(), RunLoop(), HandleExit()]
+    from . import c01
+    fr = c01.ReadFrame()
+    # "with compression on and off": the packets reach the reactor only if the reader accepts the frames of ANY conforming
+    # peer (a vanilla server compresses from size >= threshold) - the same frame contract as C01/C10, claimed here too
+    fr.prop, fr.name = 'C11', 'C11.frames.any-conforming-peer'
+    return [PlaySteps(), KeepAliveWire(), PopPacket(), RunLoop(), HandleExit(), fr]
